@@ -1,6 +1,8 @@
 package main
 
 import (
+	"os"
+	"sort"
 	"bytes"
 	"fmt"
 	"math/rand"
@@ -92,10 +94,60 @@ func genC10(r *rand.Rand, tier string, env *Env) []Case {
 		}
 		cases = append(cases, Case{Kind: kind, Ops: []Op{{"format.file", [][]byte{args[6]}}}, Oracles: []Op{{"c10.meaning", args}, {"c09.format", [][]byte{args[6]}}}})
 	}
+	// whole trees: after `format --all` — whether it succeeds or gives up on some file — every rule compiles to what it
+	// compiled to before (files the formatter refuses come first, in the middle and last in the walk)
+	nTrees := 8
+	if tier == "thorough" {
+		nTrees = 80
+	}
+	for i := 0; i < nTrees; i++ {
+		ct := genCRSTree(r, 2+r.Intn(4))
+		bad := []byte(pick(r, []string{"homer\n  bart\n##!<\nmarge\n", "alpha\nbeta\n##!<\n", "##!> assemble\nx\n##!<\n##!<\ny\n"}))
+		switch i % 4 {
+		case 0:
+			ct.t["regex-assembly/000001.ra"] = bad
+		case 1:
+			ct.t["regex-assembly/933333.ra"] = bad
+		case 2:
+			ct.t["regex-assembly/999999.ra"] = bad
+		}
+		cases = append(cases, Case{Kind: "tree:format-all-keeps-meaning", Oracles: []Op{{"c10.treeMeaning", [][]byte{encodeTree(ct.t)}}}})
+	}
 	return cases
 }
 
+// args: tree. generate for every rule file before and after `regex format --all`
+func oracleC10Tree(p *Pair, env *Env, a [][]byte) *Failure {
+	t := decodeTree(a[0])
+	sb := mkSandbox(env)
+	defer os.RemoveAll(sb)
+	_ = t.write(sb)
+	var rules []string
+	for path := range t {
+		rest := strings.TrimPrefix(path, "regex-assembly/")
+		if rest != path && strings.HasSuffix(rest, ".ra") && !strings.Contains(rest, "/") {
+			rules = append(rules, strings.TrimSuffix(rest, ".ra"))
+		}
+	}
+	sort.Strings(rules)
+	before := map[string]cliResult{}
+	for _, ru := range rules {
+		before[ru] = runCLI(env, sb, nil, "-l", "disabled", "regex", "generate", ru)
+	}
+	fa := runCLI(env, sb, nil, "-l", "disabled", "regex", "format", "-a")
+	for _, ru := range rules {
+		c := runCLI(env, sb, nil, "-l", "disabled", "regex", "generate", ru)
+		b := before[ru]
+		if (c.exit == 0) != (b.exit == 0) || !bytes.Equal(c.stdout, b.stdout) {
+			return &Failure{What: "format --all changed what a rule compiles to",
+				Detail: fmt.Sprintf("rule %s: before exit %d %q\nafter format --all (exit %d): exit %d %q", ru, b.exit, b.stdout, fa.exit, c.exit, c.stdout)}
+		}
+	}
+	return nil
+}
+
 func init() {
+	oracles["c10.treeMeaning"] = oracleC10Tree
 	oracles["c10.meaning"] = oracleC10
 	properties["C10"] = &Property{
 		ID: "C10", LeanMods: []string{"CrsProps.C10", "CrsProps.C10Gen"},
